@@ -15,6 +15,7 @@ package proxy
 //@   requires @C19 p.callForwarder != nil && ctx != nil
 //@   ensures[forwarded-exactly-once] @C19 ghost.forwards == old(ghost.forwards) + 1
 //@   ensures[real-ip-added-iff-absent] @C19 ghost.realIPAdds == old(ghost.realIPAdds) + (ghost.lastPeekLen == 0 ? 1 : 0)
+//@   ensures[reply-metadata-copied-whenever-present] @C19 cmdMeta(ghost.lastCmd) != nil ==> ghost.metaVisits == old(ghost.metaVisits) + 1
 //@   ensures[status-transparent] @C19 statOK(cmdStat(ghost.lastCmd)) || statCode(cmdStat(ghost.lastCmd)) >= 200 || statCode(cmdStat(ghost.lastCmd)) <= 99 ==> result.1 == cmdStat(ghost.lastCmd)
 //@   ensures[connection-failure-is-bad-gateway] @C19 !statOK(cmdStat(ghost.lastCmd)) && statCode(cmdStat(ghost.lastCmd)) < 200 && statCode(cmdStat(ghost.lastCmd)) > 99 ==> statCode(result.1) == erpc.CodeBadGateway && result.1 != cmdStat(ghost.lastCmd)
 //@ func (*proxy).push
@@ -53,8 +54,10 @@ package proxy
 //@   modifies nothing
 //@   ensures result == cmdStat(self)
 // (no reply received: the reply metadata of a call command is nil)
+//@ spec fn cmdMeta(c iface) *utils.Args
 //@ iface erpc.CallCmd.InputMeta
 //@   modifies nothing
+//@   ensures result == cmdMeta(self)
 //@ ghost global realIPAdds int
 //@ ghost global lastPeekLen int
 //@ iface dynamic:func(key string, value string) socket.MessageSetting
@@ -92,5 +95,8 @@ package proxy
 //@   ensures result != nil
 //@ iface erpc.UnknownPushCtx.VisitMeta
 //@   flags libframe
+//@ ghost global metaVisits int
 //@ trusted utils.visitArgs
 //@   flags libframe
+//@   modifies ghost.metaVisits
+//@   ghostset ghost.metaVisits = old(ghost.metaVisits) + 1
